@@ -14,6 +14,7 @@ import (
 	"testing/synctest"
 
 	"github.com/pion/dtls/v3/internal/verifshim/vsched"
+	"github.com/pion/dtls/v3/zzverif/world"
 )
 
 type point struct {
@@ -31,10 +32,15 @@ type Exec struct {
 	Steps    int
 	last     int
 	MaxSteps int
+	// Idle is the environment's default step, taken only when no goroutine is parked.
+	Idle func() bool
 }
 
 // Start activates the scheduler (call at a quiescent point with no shim lock held).
-func (x *Exec) Start() { vsched.Start() }
+func (x *Exec) Start() {
+	world.SchedPoint = func(kind string, obj any) { vsched.Point(kind, obj, func() bool { return true }) }
+	vsched.Start()
+}
 
 // Drive runs the scheduled phase to completion: until no goroutine is parked at a scheduling point.
 func (x *Exec) Drive() {
@@ -45,6 +51,11 @@ func (x *Exec) Drive() {
 		synctest.Wait()
 		parked := vsched.Parked()
 		if len(parked) == 0 {
+			// nobody is at a scheduling point: let the environment take its default step (e.g. deliver the
+			// oldest in-flight datagram); the scheduled phase ends when it has nothing to do either
+			if x.Idle != nil && x.Idle() {
+				continue
+			}
 			return
 		}
 		sort.Slice(parked, func(i, j int) bool { return parked[i].G < parked[j].G })
@@ -89,7 +100,10 @@ func (x *Exec) Drive() {
 }
 
 // Stop deactivates the scheduler (parked goroutines are released and run natively).
-func (x *Exec) Stop() { vsched.Stop() }
+func (x *Exec) Stop() {
+	vsched.Stop()
+	world.SchedPoint = nil
+}
 
 // Schedule renders the grant trace of the last scheduled phase.
 func (x *Exec) Schedule() string { return strings.Join(vsched.Trace, " ") }
